@@ -11,6 +11,7 @@ import AslProofs.NumValDefs
 import AslProofs.IntLit
 import AslProofs.XdlComment
 import AslProofs.XdlAtoiz
+import AslProofs.XdlNumLit
 /-!
 # C06 — JSON/XDL decoding is total, memory-safe, chunk-independent and RFC 8259 conformant
 
@@ -228,6 +229,46 @@ example : Rfc8259.SerDoc
   exact Rfc8259.SerV.obj _ _
     (Rfc8259.SerMembers.one [97] _ [] [97] [] [] _ [] hws (.plain 97 [] [] (by unfold Rfc8259.unescaped; decide) .nil) hws hws
       (Rfc8259.SerV.arr _ _ e) hws)
+
+/-! ## fraction / exponent literals: the decimal `atof` reads, and the exact cases
+
+These lexemes are handed to `atof` whatever their length.  `parse_number_lexeme`: for EVERY RFC 8259 number the model
+of `atof` reads sign, mantissa digits (int ++ frac), number of fraction digits and exponent exactly as the grammar
+assigns them, so `NumVal.lexVal lex` is the decimal value the literal denotes.  `scaled_literal_value`: when the net
+exponent `k` = exponent − number of fraction digits is ≥ 0 and `mant·10^k < 2^53` (`2.5e3`, `1E5`, `-1.50e2`,
+`9007199254740.991e3`) the double is exactly that value.  General correct rounding of fractions stays K + python. -/
+
+open AslProofs.Num in
+theorem parse_number_lexeme (minus ip fr ex : Bytes) (hm : minus = [] ∨ minus = [45]) (hip : Rfc8259.IntPart ip)
+    (hf : Rfc8259.Frac fr) (hx : Rfc8259.Exp ex) :
+    Rfc8259.Number (minus ++ ip ++ fr ++ ex) ∧
+    AslModel.Strtod.parseDec (minus ++ ip ++ fr ++ ex) =
+      { neg := decide (minus = [45]), mant := AslModel.Strtod.digitsVal (ip ++ fracDigits fr),
+        fracLen := (fracDigits fr).length, expNeg := expNegOf ex, exp := AslModel.Strtod.digitsVal (expDigits ex) } :=
+  ⟨.mk minus ip fr ex hm hip hf hx, parseDec_number minus ip fr ex hm hip hf hx⟩
+
+open AslProofs.Num in
+theorem scaled_literal_value (minus ip fr ex : Bytes) (hm : minus = [] ∨ minus = [45]) (hip : Rfc8259.IntPart ip)
+    (hf : Rfc8259.Frac fr) (hx : Rfc8259.Exp ex) (k : Nat)
+    (hk : (if expNegOf ex then -((AslModel.Strtod.digitsVal (expDigits ex) : Nat) : Int)
+           else ((AslModel.Strtod.digitsVal (expDigits ex) : Nat) : Int)) - ((fracDigits fr).length : Int) = (k : Int))
+    (h0 : AslModel.Strtod.digitsVal (ip ++ fracDigits fr) ≠ 0)
+    (hN : AslModel.Strtod.digitsVal (ip ++ fracDigits fr) * 10 ^ k < 2 ^ 53) :
+    NumVal.dval (AslModel.Strtod.atofBits (minus ++ ip ++ fr ++ ex)) = NumVal.lexVal (minus ++ ip ++ fr ++ ex) ∧
+    NumVal.lexVal (minus ++ ip ++ fr ++ ex) =
+      (if minus = [45] then -((AslModel.Strtod.digitsVal (ip ++ fracDigits fr) * 10 ^ k : Nat) : Rat)
+       else ((AslModel.Strtod.digitsVal (ip ++ fracDigits fr) * 10 ^ k : Nat) : Rat)) :=
+  scaled_literal_exact minus ip fr ex hm hip hf hx k hk h0 hN
+
+/-- non-vacuity: `2.5e3` (mantissa 25, one fraction digit, exponent 3: k = 2, value 2500) -/
+example : Rfc8259.Frac [46, 53] ∧ Rfc8259.Exp ([101] ++ [] ++ [51]) ∧ Rfc8259.IntPart [50] ∧
+    AslModel.Strtod.digitsVal ([50] ++ AslProofs.Num.fracDigits [46, 53]) * 10 ^ 2 = 2500 ∧
+    (if AslProofs.Num.expNegOf [101, 51] then -((AslModel.Strtod.digitsVal (AslProofs.Num.expDigits [101, 51]) : Nat) : Int)
+     else ((AslModel.Strtod.digitsVal (AslProofs.Num.expDigits [101, 51]) : Nat) : Int))
+      - ((AslProofs.Num.fracDigits [46, 53]).length : Int) = ((2 : Nat) : Int) :=
+  ⟨.some 53 [] (by unfold Rfc8259.isDig; decide) (by intro c h; simp at h),
+   .some 101 [] 51 [] (Or.inl rfl) (Or.inl rfl) (by unfold Rfc8259.isDig; decide) (by intro c h; simp at h),
+   .nz 50 [] (by decide) (by decide) (by intro c h; simp at h), by decide, by decide⟩
 
 /-! ## `myatoiz` (state INT, literals of at most `intSplit` characters) tied to src/String.cpp
 
